@@ -129,6 +129,11 @@ def _rewriters(w):
     fn = w.fn_of(fi)
     sites = [(n, c) for (n, c, nm) in fn.calls()
              if endswith(nm, "predicate_formula.process_renames", "process_renames")]
+    if sites and fi.parent is None:
+      # private helpers called from the rewriter are followed
+      fn = H.xfn(w, fi.qualname, keep=KEEP)
+      sites = [(n, c) for (n, c, nm) in fn.calls()
+               if endswith(nm, "predicate_formula.process_renames", "process_renames")]
     if sites:
       out.append((fn, sites))
   if len(out) < 3:
@@ -189,7 +194,7 @@ def r1_wiring(run, w, rewriters):
   prep_guard = v.cfg_facts(prep_node)
   uses = {prep_node}
   for (rfn, sites) in rewriters:
-    top = rfn.fi
+    top = w.repo.func(rfn.fi.qualname)
     while top.parent is not None:
       top = top.parent
     calls = [(n, c) for (n, c, nm) in fn.calls() if _resolves_to(fn, c, top)]
@@ -254,7 +259,7 @@ def r1_wiring(run, w, rewriters):
            sorted(tabs) == ["_grist_ACLResources", "_grist_ACLRules"], fi=inner)
   # ---- key shape of every lookup in a rename map
   for (rfn, sites) in rewriters:
-    top = rfn.fi
+    top = w.repo.func(rfn.fi.qualname)
     while top.parent is not None:
       top = top.parent
     _key_shapes(run, R1, w, top)
@@ -478,7 +483,8 @@ def _reaches_update(run, R2, w, fn, v, sn, sst, kind, cont, schema, loop, head, 
           carried(a.elts[1]):
         appends[n.id] = (v.alias_root(f.value).id, a.elts[1])
   # from the moment the new text is stored
-  esc = _escape_path(cfg, sn.id, set(appends), {head, cfg.exit.id})
+  esc = None if sn.id in appends else \
+      _escape_path(cfg, sn.id, set(appends), {head, cfg.exit.id})
   run.ob(R2, q, "%s -> <updates>.append((%s, ...)) -> doBulkUpdateFromPairs" % (short(sst), rec),
          "once the text is replaced, the record's update is queued before the next record is "
          "looked at, on every path (flags set on the way are taken into account)",
@@ -498,62 +504,9 @@ def _reaches_update(run, R2, w, fn, v, sn, sst, kind, cont, schema, loop, head, 
 
 
 def _escape_path(cfg, start, targets, stops):
-  """A path from just after `start` to one of `stops` that avoids `targets`, where an `if` on a
-  flag that was assigned True on the way (and not reassigned since) only takes the branch that
-  flag selects. None when every path passes a target."""
-  from collections import deque
-  from .. import guards as G
-  init = (start, frozenset())
-  prev = {init: None}
-  dq = deque([init])
-  while dq:
-    cur = dq.popleft()
-    nid, known = cur
-    node = cfg.nodes[nid]
-    k2 = known
-    s = node.stmt
-    if node.kind == "stmt" and isinstance(s, ast.Assign) and len(s.targets) == 1 and \
-        isinstance(s.targets[0], ast.Name):
-      nm = s.targets[0].id
-      if isinstance(s.value, ast.Constant) and s.value.value is True:
-        k2 = known | {nm}
-      else:
-        k2 = known - {nm}
-    succs = cfg.normal_succ(nid)
-    if node.kind == "if" and nid in cfg.if_true:
-      t_succ = set(cfg.if_true[nid])
-      f_succ = set(succs) - t_succ
-      verdict = _flag_value(s.test, k2)
-      if verdict is True:
-        succs = t_succ & set(succs)
-      elif verdict is False:
-        succs = f_succ
-    for t in succs:
-      if t in targets:
-        continue
-      nxt = (t, k2)
-      if nxt in prev:
-        continue
-      prev[nxt] = cur
-      if t in stops:
-        path = [t]
-        p = cur
-        while p is not None:
-          path.append(p[0])
-          p = prev[p]
-        return list(reversed(path))
-      dq.append(nxt)
-  return None
-
-
-def _flag_value(test, known):
-  """Truth value of a test made only of flags known to be True, else None."""
-  if isinstance(test, ast.Name):
-    return True if test.id in known else None
-  if isinstance(test, ast.UnaryOp) and isinstance(test.op, ast.Not):
-    x = _flag_value(test.operand, known)
-    return None if x is None else (not x)
-  return None
+  """A path from just after `start` to one of `stops` that avoids `targets`, boolean flags set
+  on the way taken into account (see H.flag_path). None when every path passes a target."""
+  return H.flag_path(cfg, start, targets, stops, after=True)
 
 
 # ------------------------------------------------------------------------------------------ R3
@@ -830,11 +783,17 @@ def r4_process_renames(run, w):
     for (n, c, nm) in fn.calls():
       if isinstance(c.func, ast.Attribute) and c.func.attr == "append" and len(c.args) == 1 and \
           isinstance(c.func.value, ast.Name):
-        arg = c.args[0]
+        arg = v.alias_root(c.args[0])
+        arg_at = n.id
+        if isinstance(arg, ast.Name) and isinstance(c.args[0], ast.Name) and \
+            arg.id != c.args[0].id:
+          # the alias was bound where the mapped-back patch was still the current one
+          r = v.value_at(c.args[0].id, n.id)
+          arg_at = r[1] if r is not None else n.id
         direct = isinstance(arg, ast.Subscript) and isinstance(arg.slice, ast.Constant) and \
             arg.slice.value == 2 and v.denotes(arg.value, lambda e: e is mb[0][1])
         named = third is not None and isinstance(arg, ast.Name) and arg.id == third and \
-            v.reaching(third, n.id) == frozenset([mb[0][0].id])
+            v.reaching(third, arg_at) == frozenset([mb[0][0].id])
         if (direct or named) and \
             cfg.path(mb[0][0].id, {tm.head, cfg.exit.id}, removed={n.id}, after=True) is None:
           plist = c.func.value.id
